@@ -44,6 +44,15 @@ CHECKS = {
             'upset/downset/upset_union/downset_union lists must equal the reference up/down-sets sorted by index/dindex.', '3 C09'),
     'C10': ('exhaustive + Hypothesis tables vs reference object/attribute concepts, label unions, atoms and string rendering',
             'reduced labels, their unions along up/downsets, concept.atoms and str() are compared with the reference model.', '3 C10'),
+    'C11': ('Hypothesis tables x persistence configurations: reference encoding of todict(), loaded-vs-recomputed lattice fingerprints, raw permutations, pickles in-process and in fresh interpreters with other hash seeds',
+            'todict() is compared with the encoding computed from the reference model; every reload path (dict, JSON '
+            'text/file, python-literal string/file, raw=True on permuted data, pickle of context and lattice in the same '
+            'and in other interpreter processes) must give an equal context whose lattice answers every public query '
+            'like the recomputed one; lattices from 1 to 4096 concepts.', '3 C11'),
+    'C12': ('Hypothesis labels x fills x format configurations: round trips, independent readers and writers, documented layout, index exports',
+            'four independent sub-oracles per format (round trip through every loader entry point, independent reader of '
+            'the emitted text, independent writer variants loaded by the library, FIMI / concept .dat index lists) over '
+            'per-format label alphabets, encodings, csv dialects, indents and suffix cases.', '3 C12'),
     'C13': ('bounded exhaustive state x operation x probe enumeration + Hypothesis rule-based state machine vs ordered-table model',
             'every visible definition over a small name universe x every operation instance (x every probing operation '
             'as a further step) and long random histories over larger universes are compared step by step with a '
@@ -57,6 +66,10 @@ CHECKS = {
     'C16': ('exhaustive + biased Hypothesis tables vs classification rebuilt from the four-combination table',
             'relations() (with and without unary) and its printed forms are compared with an oracle built from the '
             'property text.', '3 C16'),
+    'C17': ('differential execution of generated call scripts in K fresh interpreters with different PYTHONHASHSEED; ddmin over script steps',
+            'the same Hypothesis-generated script file (context batteries, definition edit histories, error probes) is '
+            'executed by K interpreter processes with different hash seeds and the transcripts must be identical '
+            '(addresses masked); differences are minimised by delta debugging.', '3 C17'),
     'C18': ('exhaustive + Hypothesis tables x all concepts vs brute-force generating subsets',
             'attributes()/minimal() are compared with brute-force enumeration of generating subsets of each intent.', '3 C18'),
     'C19': ('systematic single/double corruption of valid inputs + Hypothesis, vs independent rule predicate',
